@@ -150,4 +150,26 @@ def t2(chk, wc, tier, seed):
          'theorem reshuffle_name_tie : reshuffleNameFormatG = "inv%d_%s_shuffle" ∧ reshuffleNameArgsG = ", c.inv.Index, result.tasks[0].Name.Op" := by decide',
          "exec/compile.go: the tasks re-shuffling a Result are named after the consuming invocation (task outputs are stored by name)"),
     ]
+    # the local executor treats a dependency output that cannot be read (discarded meanwhile) as *loss* of the consumer — so
+    # that the evaluator recomputes — and only combine/combiner set-up failures as fatal (exec/local.go depReaders, Run)
+    loc = open(wc.repo + "/exec/local.go").read()
+    try:
+        dr = loc[loc.index("func (l *localExecutor) depReaders("):]
+        dr = dr[:dr.index("\n}\n")]
+    except ValueError:
+        dr = ""
+    read_errs = re.findall(r'errors\.E\(([^\n]*?)"error reading %v"', dr)
+    read_nonfatal = len(read_errs) >= 1 and all("Fatal" not in a for a in read_errs)
+    nodata = re.findall(r'errors\.E\(([^\n]*?)fmt\.Sprintf\("no data for|errors\.E\(([^\n]*?)"no data', dr)
+    try:
+        rn = loc[loc.index("func (l *localExecutor) Run("):]
+        rn = rn[:rn.index("\n}\n")]
+    except ValueError:
+        rn = ""
+    lost_unless_fatal = re.search(r"in, err := l\.depReaders\(ctx, task\)\s*if err != nil \{\s*if errors\.Match\(fatalErr, err\) \{\s*task\.Error\(err\)\s*\} else \{\s*task\.Set\(TaskLost\)", rn) is not None
+    gen += "\ndef localDepReadErrorNotFatalG : Bool := %s\ndef localLostUnlessFatalG : Bool := %s" % (
+        "true" if read_nonfatal else "false", "true" if lost_unless_fatal else "false")
+    ties.append(("local_missing_dep_is_loss",
+                 "theorem local_missing_dep_is_loss : localDepReadErrorNotFatalG = true ∧ localLostUnlessFatalG = true := by decide",
+                 "exec/local.go: an unreadable dependency output leaves the consumer LOST (recomputed by the evaluator), not failed"))
     vlib.t2_check(chk, wc, "C12", ["BS.Model.Discard"], gen, ties)
